@@ -197,9 +197,7 @@ def run(ctx):
     try:
         from . import c02
         sub = type(ctx)(ctx.prop, ctx.tier, ctx.facts, ctx.facts_info, ctx.seed)
-        c02.r1_key_composition(sub)
-        c02.r2_read_set(sub)
-        c02.r4_unkeyed_state(sub)
+        c02.all_rules(sub)
         for s in sub.samples:
             if 'generate_attack_targets' in s['function'] and 'read' in s['instance']:
                 pass
